@@ -100,6 +100,12 @@ func c06RealtimeFeed() *gtfsrt.FeedMessage {
 	}
 	m.Entity = append(m.Entity, &gtfsrt.FeedEntity{Id: sp("vp"), Vehicle: &gtfsrt.VehiclePosition{Vehicle: &gtfsrt.VehicleDescriptor{Id: sp("V2")}, StopId: sp("VS2")}})
 	m.Entity = append(m.Entity, &gtfsrt.FeedEntity{Id: sp("vp0"), Vehicle: &gtfsrt.VehiclePosition{StopId: sp("VS0")}})
+	// determinism is claimed for every input, conflicting ones included: a trip claimed by two
+	// vehicles and a vehicle claimed by two trips
+	m.Entity = append(m.Entity, &gtfsrt.FeedEntity{Id: sp("claim1"), Vehicle: &gtfsrt.VehiclePosition{Vehicle: &gtfsrt.VehicleDescriptor{Id: sp("W1")}, Trip: &gtfsrt.TripDescriptor{TripId: sp("T3"), RouteId: sp("R")}}})
+	m.Entity = append(m.Entity, &gtfsrt.FeedEntity{Id: sp("claim2"), Vehicle: &gtfsrt.VehiclePosition{Vehicle: &gtfsrt.VehicleDescriptor{Id: sp("W2")}, Trip: &gtfsrt.TripDescriptor{TripId: sp("T3"), RouteId: sp("R")}}})
+	m.Entity = append(m.Entity, &gtfsrt.FeedEntity{Id: sp("claim3"), TripUpdate: &gtfsrt.TripUpdate{Trip: &gtfsrt.TripDescriptor{TripId: sp("U1")}, Vehicle: &gtfsrt.VehicleDescriptor{Id: sp("W3")}}})
+	m.Entity = append(m.Entity, &gtfsrt.FeedEntity{Id: sp("claim4"), TripUpdate: &gtfsrt.TripUpdate{Trip: &gtfsrt.TripDescriptor{TripId: sp("U2")}, Vehicle: &gtfsrt.VehicleDescriptor{Id: sp("W3")}}})
 	a := &gtfsrt.Alert{}
 	for _, r := range []string{"RB", "RA", "RC"} {
 		a.InformedEntity = append(a.InformedEntity, &gtfsrt.EntitySelector{Trip: &gtfsrt.TripDescriptor{RouteId: sp(r)}, StopId: sp("stop-" + r)})
@@ -307,7 +313,7 @@ func c06StaticHistory(c *Ctx) {
 
 // Symbols of the fresh-process alphabet: the same calendar dates / start dates under
 // different zones, so that anything cached per process across calls shows.
-var c06FreshSymbols = []string{"static/New_York", "static/Kolkata", "rt/New_York", "rt/UTC", "rt/London", "static/unknown-zone"}
+var c06FreshSymbols = []string{"static/New_York", "static/Kolkata", "rt/New_York", "rt/UTC", "rt/London", "static/unknown-zone", "rt/EST(-5h)", "rt/EST(+10h)"}
 
 func c06FreshInput(sym int) (static []byte, rt []byte, tz *time.Location) {
 	switch sym {
@@ -320,6 +326,9 @@ func c06FreshInput(sym int) (static []byte, rt []byte, tz *time.Location) {
 			m.t("agency.txt").set(0, "agency_timezone", "Mars/Phobos") // unknown: dates fall back to UTC
 		}
 		return renderFeed(m, presentation{}), nil, nil
+	}
+	if sym >= 6 {
+		return nil, c06Feeds()[3], []*time.Location{time.FixedZone("EST", -5*3600), time.FixedZone("EST", 10*3600)}[sym-6]
 	}
 	return nil, c06Feeds()[3], []*time.Location{zoneNY, time.UTC, zoneLondon}[sym-2]
 }
@@ -417,7 +426,7 @@ func init() {
 	register(&Check{
 		ID:    "C06",
 		Level: "model_checking",
-		Rule: "(1) every combination of iteration starts at every library map range (choice points owned through the runtime overlay) for a static archive with 3 services/3 shapes/3 trips/3 sibling stops and a realtime message with 3 id-bearing vehicles, 3 trips and an alert with 3 fall-back routes; (2) all call sequences of <= 3 (thorough <= 5) over 6 feeds on ONE shared options/extension object for each of 30 configurations (nil Extension, explicit no-op, 4 nycttrips with and without Timezone, 24 nyctalerts), and all sequences of <= 3 static parses over 3 archives x inherit option; (3) relation (bytes, configuration) -> dump over every parse of the run, across worker processes; (4) all histories of <= 3 (thorough 4) calls over {static archive in New_York / Kolkata / an unknown zone, realtime feed under New_York / UTC / London} each executed in its own pristine process and compared call by call with single-call pristine processes; " +
+		Rule: "(1) every combination of iteration starts at every library map range (choice points owned through the runtime overlay) for a static archive with 3 services/3 shapes/3 trips/3 sibling stops and a realtime message with 3 id-bearing vehicles, 3 trips and an alert with 3 fall-back routes; (2) all call sequences of <= 3 (thorough <= 5) over 6 feeds on ONE shared options/extension object for each of 30 configurations (nil Extension, explicit no-op, 4 nycttrips with and without Timezone, 24 nyctalerts), and all sequences of <= 3 static parses over 3 archives x inherit option; (3) relation (bytes, configuration) -> dump over every parse of the run, across worker processes; (4) all histories of <= 3 (thorough 4) calls over {static archive in New_York / Kolkata / an unknown zone, realtime feed under New_York / UTC / London / two fixed zones both named EST} each executed in its own pristine process and compared call by call with single-call pristine processes; " +
 			"non-trivial = distinct histories of >= 2 calls or inputs with a >= 3-entry library map; oracle = differential (rotated vs. fixed order, reused vs. fresh object) with content and order compared",
 		Assumptions: []string{"library maps are single-bucket (<= 8 entries) in these inputs, so rotations are all achievable orders; uncontrolled_maps counts any exception", "process-level state (package variables) is exercised by running histories in 16 separate worker processes that must all agree"},
 		Scenarios: func(tier string) []*Scenario {
